@@ -461,6 +461,7 @@ def gets(meta):
 
 
 def run_c01(rep, tier, seed):
+    config_stage(rep, random.Random(seed * 77 + 1), 40 if tier == "quick" else 400, os.path.join(WORK, "run-cfg-" + "run_c01"))
     n = 250 if tier == "quick" else 3000
     generic_store_check(rep, tier, seed, "C01", {"put", "del", "get", "merge"}, lambda meta: (lambda i, op: []), {"map"}, n,
                         compare_fn=lambda tag, line: tag[0] == "op" and not line.startswith("merge"))
@@ -520,6 +521,7 @@ def run_c12(rep, tier, seed):
 
 
 def run_c13(rep, tier, seed):
+    config_stage(rep, random.Random(seed * 77 + 1), 40 if tier == "quick" else 400, os.path.join(WORK, "run-cfg-" + "run_c13"))
     n = 250 if tier == "quick" else 3000
 
     def mutate(rng, h):
